@@ -7,7 +7,9 @@ package main
 import (
 	"fmt"
 	"os"
+	"regexp"
 	"sort"
+	"strconv"
 	"strings"
 	"time"
 
@@ -292,52 +294,87 @@ func (w *world) body(tid int, g prog) func() {
 	panic("bad prog")
 }
 
+// A step is identified by WHAT it does, not by the function that contains it: the instrumenter's label is
+// "<enclosing function>:<operation>"; the function prefix is stripped and the operation (callee / lock / channel
+// operation and the field it acts on, whatever the receiver variable is called) is mapped to the model's operation class
+// (Future/FutRun.v class_code). Extracting helpers, renaming functions or locals therefore does not disturb the tie; the
+// per-step state comparison keeps it tight.
+var (
+	reNew      = regexp.MustCompile(`NewFuture\[`)
+	reAppend   = regexp.MustCompile(`\.appendFuture$`)
+	reCas      = regexp.MustCompile(`\.closed\.CompareAndSwap$`)
+	reLoad     = regexp.MustCompile(`\.closed\.Load$`)
+	reAsgErr   = regexp.MustCompile(`^assign:\w+\.err$`)
+	reAsgMsg   = regexp.MustCompile(`^assign:\w+\.message$`)
+	reCloseCh  = regexp.MustCompile(`^close:\w+\.done$`)
+	reCloser   = regexp.MustCompile(`\.closer$`)
+	reLockMu   = regexp.MustCompile(`^Lock:\w+\.mu$`)
+	reTell     = regexp.MustCompile(`\.liaison\.Tell$`)
+	reRecvDone = regexp.MustCompile(`^recv:\w+\.done$`)
+	reAppFwd   = regexp.MustCompile(`^append\(\w+\.forwarders, .*\)\.Unique$`)
+)
+
+// opOf strips the enclosing-function prefix of an instrumenter label.
+func opOf(l string) string {
+	if i := strings.Index(l, ":"); i >= 0 {
+		return l[i+1:]
+	}
+	return l
+}
+
 func labelCode(l string) uint64 {
-	switch l {
+	switch l { // scheduling points of the harness itself / of vsched
 	case "start":
 		return 1
 	case "user:await":
 		return 2
-	case "ask:future.NewFuture[vivid.Message]":
-		return 3
-	case "ask:c.system.appendFuture":
-		return 4
 	case "timer:fire":
 		return 5
 	case "reply:lookup":
 		return 6
 	case "death:lookup":
 		return 7
-	case "close:f.closed.CompareAndSwap":
-		return 8
-	case "close:assign:f.err":
-		return 9
-	case "close:assign:f.message":
-		return 10
-	case "close:close:f.done":
-		return 11
-	case "close:f.closer":
-		return 12
-	case "close:Lock:f.mu":
-		return 13
-	case "tellForwarders:f.liaison.Tell":
-		return 14
-	case "PipeTo:Lock:f.mu":
-		return 15
-	case "PipeTo:f.closed.Load":
-		return 16
-	case "Result:recv:f.done", "Wait:recv:f.done":
-		return 17
 	case "foreign:reg", "foreign:unreg":
 		return 18
-	case "Closed:f.closed.Load":
-		return 19
-	case "PipeTo:recv:f.done":
-		return 20
-	case "PipeTo:append(f.forwarders, forwarders...).Unique":
+	}
+	op := opOf(l)
+	switch {
+	case reNew.MatchString(op):
+		return 3
+	case reAppend.MatchString(op):
+		return 4
+	case reCas.MatchString(op):
+		return 8
+	case reAsgErr.MatchString(op):
+		return 9
+	case reAsgMsg.MatchString(op):
+		return 10
+	case reCloseCh.MatchString(op):
+		return 11
+	case reCloser.MatchString(op):
+		return 12
+	case reLockMu.MatchString(op):
+		return 13 // in close and in PipeTo: one class
+	case reTell.MatchString(op):
+		return 14
+	case reLoad.MatchString(op):
+		return 16 // in PipeTo and in Closed(): one class
+	case reRecvDone.MatchString(op):
+		return 17 // in Result / Wait and in PipeTo: one class
+	case reAppFwd.MatchString(op):
 		return 21
 	}
 	return 98
+}
+
+// stuckThreads parses vsched's description of the unfinished threads: thread id -> label it is parked at.
+func stuckThreads(stuck string) map[int]string {
+	out := map[int]string{}
+	for _, m := range regexp.MustCompile(`\[thread (\d+) at "([^"]*)"\]`).FindAllStringSubmatch(stuck, -1) {
+		id, _ := strconv.Atoi(m[1])
+		out[id] = m[2]
+	}
+	return out
 }
 
 type snap struct {
@@ -389,6 +426,7 @@ type result struct {
 }
 
 func execute(cfg config, choose func([]int, int) int) result {
+	actor.XVRegistryBlocking = false // every goroutine is parked when the tables are read
 	w := newWorld(cfg)
 	s := vsched.New(choose)
 	s.MaxSteps = 2000
@@ -590,13 +628,11 @@ func (h *H) monitors(cfg config, r result, in lib.T) {
 			o.Monitor("not-completed", in, "every goroutine finished, a reply/timeout/Close reached the future, but done is not closed")
 		}
 	} else {
-		// blocked goroutines: legitimate only for Result/Wait on a future nothing ever completed
+		// blocked goroutines: legitimate only for Result/Wait callers (threads of kind kWait parked at <-done) on a future
+		// nothing ever completed
 		onlyWaiters := true
-		for _, part := range strings.Split(r.stuck, "] ") {
-			if strings.TrimSpace(part) == "" {
-				continue
-			}
-			if !strings.Contains(part, "\"Result:recv:f.done\"") && !strings.Contains(part, "\"Wait:recv:f.done\"") {
+		for tid, lab := range stuckThreads(r.stuck) {
+			if tid < 1 || tid > len(cfg.progs) || cfg.progs[tid-1].kind != kWait || !reRecvDone.MatchString(opOf(lab)) {
 				onlyWaiters = false
 			}
 		}
@@ -643,7 +679,7 @@ func (h *H) monitors(cfg config, r result, in lib.T) {
 				asgAt = a
 			}
 			for j, st := range r.trace {
-				if labelCode(st.Label) == 16 && casAt >= 0 && j > casAt && (asgAt < 0 || j < asgAt) {
+				if labelCode(st.Label) == 16 && st.Tid != 0 && casAt >= 0 && j > casAt && (asgAt < 0 || j < asgAt) {
 					why = fmt.Sprintf("PipeTo loaded closed=true at step %d, between the CAS (step %d) and the assignment (step %d)", j, casAt, asgAt)
 				}
 			}
